@@ -21,7 +21,10 @@ func TestSim_Smoke(t *testing.T) {
 					w.Users = append(w.Users, seedUser(i, auth.LevelAuth, types.ModeCAuth, types.ModeNone))
 				}
 				for i := 0; i < 3; i++ {
-					w.addClient(w.Users[i])
+					c := w.addClient(w.Users[i])
+					if i == 1 {
+						c.Transport = TransportLP
+					}
 				}
 				w.setOps(map[int][]*Op{
 					0: {opHi(), opLogin(0, "basic"), opSub("me", "", "desc sub"), func() *Op { o := opSub("new", "", "desc"); o.CreatesGroup = 0; return o }(), opPub("@grp0", "m0.1", false)},
